@@ -26,6 +26,10 @@ CHECKS['C06'] = ('E4', 'model_checking',
     'Every acyclic caller/callee program over e0..e3 (callers: call by object, wait by name/object, two calls in sequence, call-then-yield, yield-then-call; callees: return, raise, generators yielding/raising before or after the first yield, two handlers, instance-dependent durations) x one or two callers in flight x both task stepping orders x time-outs {0,1,3} against callees lasting 0-4 loop iterations runs under the real run(). Every suspension must be resumed exactly once, after the callee finished, with the callee own result and error flag (or TimeoutError not before the given number of iterations); the caller event gets value/success/complete once; handler tables and task set at quiescence equal their initial contents; a quiescent state with a suspended caller is a deadlock verdict.',
     'Trusted: ghost log; task order owned through an ordered drop-in for Manager._tasks (both orders enumerated); acyclic call structure.',
     'bounded-exhaustive program enumeration under the real run(), task order as enumerated schedule', 'DESIGN.md 6/C06')
+CHECKS['C03'] = ('E2', 'model_checking',
+    'Stateless CHESS-style exploration of real threads: the loop thread runs the real Manager.run(), firing threads call fire(); every interleaving at source-line granularity of the dispatch / generate_events hand-shake / idle-wait / wake-up functions plus every lock, event and select/poll/epoll operation is executed with <=k pre-emptions (quick: fallback k<=2, each poller k<=1, two firing threads k<=1; thorough: one more everywhere) for the fallback idle wait and for Select, Poll and EPoll. Timed waits never expire, so a loop that needs a timeout to notice an event ends in the terminal state loop-blocked + undispatched event = LOST WAKE-UP; every execution is also judged for exactly-once, per-thread-ordered dispatch.',
+    'Trusted: CPython line atomicity for the monitored functions (sub-line races not explored), the lock/event/select doubles, sys.monitoring LINE delivery; the randomised tail of the quantifier is not done (sampling is another family).',
+    'pre-emption-bounded exhaustive schedule exploration of the real threads under a controlled scheduler (stateless model checking)', 'DESIGN.md 3/E2, 6/C03')
 NOT_YET = {}
 def main():
     props = [json.loads(l) for l in open(os.path.join(HERE, 'properties.jsonl'))]
